@@ -69,6 +69,20 @@ def check_c11(case, ctx):
         tot = math.fsum(probs) + d
         if abs(tot - 1.0) > n * n * 1e-13:
             raise Violation("rank-plus-draw", f"{kind}: sum of predict_rank probabilities {math.fsum(probs)!r} + predict_draw {d!r} = {tot!r}")
+    if n >= 3 and case.get("then_rate"):
+        # the ordinary flow on ONE model and the same objects: predict_rank, rate (updates these objects in place), predict_rank again
+        r2 = guarded(m.rate, objs, what="rate", ranks=list(range(n)))
+        out2 = guarded(m.predict_rank, r2, what="predict_rank")
+        d2 = guarded(m.predict_draw, r2, what="predict_draw")
+        ctx.called(3)
+        tot2 = math.fsum(p for _, p in out2) + d2
+        if abs(tot2 - 1.0) > n * n * 1e-13:
+            raise Violation("rank-plus-draw:after-rate", f"{kind}: after rate() on the same objects, sum of predict_rank probabilities + predict_draw = {tot2!r}")
+        fresh = mk_model(cfg)
+        out3 = guarded(fresh.predict_rank, mk_teams(fresh, [[[p.mu, p.sigma] for p in t] for t in r2]), what="predict_rank")
+        if out3 != out2:
+            raise Violation("stale-after-rate", f"{kind}: predict_rank after rate() on the same objects = {out2!r}, on fresh objects with the updated values {out3!r}")
+        ctx.label("predict-rate-predict")
     if ties:
         ctx.label("probability-tie")
     ctx.nontrivial_if(n >= 3 and (ties or len(set(probs)) >= 3))
@@ -87,6 +101,7 @@ def cases(draw):
             if dst != src:
                 teams[dst] = [list(p) for p in teams[src]]
     c["perm"] = list(draw(st.permutations(list(range(n)))))
+    c["then_rate"] = draw(st.integers(0, 2)) == 0
     return c
 
 
